@@ -83,11 +83,12 @@ def insertSorted (x : Nat) : List Nat → List Nat
   | [] => [x]
   | y :: ys => if x < y then x :: y :: ys else if x = y then y :: ys else y :: insertSorted x ys
 
-/-- `get_parent_states` with its loose label match -/
+/-- `get_parent_states`: an edge carries the symbol `label` when its characters are the symbol's and its range of counts
+contains the symbol's -/
 def parentStates (d : Dfa) (a : Block) (label : Grapheme) : Block :=
   a.foldl (fun x s =>
     match (d.inEdges s).find? (fun e =>
-        e.label.chars = label.chars && (e.label.max == label.max || e.label.min == label.min)) with
+        e.label.chars = label.chars && decide (e.label.min ≤ label.min) && decide (label.max ≤ e.label.max)) with
     | some e => insertSorted e.src x
     | none => x) []
 
@@ -114,8 +115,7 @@ def updateW (w : List Block) : List (Block × Block × Block) → List Block
   | [] => w
   | (y, i, dd) :: rest =>
     if w.contains y then updateW (removeFirst y w ++ [i, dd]) rest
-    else if i.length ≤ dd.length then updateW (w ++ [i]) rest
-    else updateW (w ++ [dd]) rest
+    else updateW (w ++ [i, dd]) rest
 
 def refineByAlphabet (d : Dfa) (a : Block) : List Grapheme → List Block × List Block → List Block × List Block
   | [], pw => pw
